@@ -168,7 +168,10 @@ Definition sum4 (l : list (nat * nat * nat * nat)) : nat * nat * nat * nat :=
 
 (* hypotheses under which the statement is evaluated (others are counted as outside) *)
 Definition c12_hyps (c : case) : bool :=
-  negb (o_x (o c)) && Nat.eqb (o_import_errors (o c)) 0
+  (* with -x the statement is evaluated when no test is skipped by decorator (whether such a test "ran" after the stop
+     leaves no trace) and the run is not repeated *)
+  (negb (o_x (o c)) || (forallb (fun b => negb (t_deco b)) (tests (w c)) && Nat.eqb (reps_of c) 1))
+  && Nat.eqb (o_import_errors (o c)) 0
   (* every layer that has a decorator-skipped test also has an ordinary one, so that "its tests ran" is observable *)
   && forallb (fun b => negb (t_deco b) || existsb (fun b' => negb (t_deco b') && Nat.eqb (t_layer b') (t_layer b)) (tests (w c))) (tests (w c)).
 
